@@ -3250,4 +3250,18 @@ pub mod verif_gc {
     pub fn heap_recount(t: &VmGreenThread) -> usize {
         t.heap_list.iter().map(|h| unsafe { &**h }.nbytes()).sum()
     }
+
+    /// the counters that pace the collector, read-only: (`heap_size`, `last_gc_heap_size`, `gc_debt`, the bytes
+    /// of the gray-stack entries that are static strings (outside the collected heap and hidden from the
+    /// snapshot; popping one consumes that much of a marking slice), `nbytes` of every `heap_list` entry in order)
+    pub fn pacing(t: &VmGreenThread) -> (usize, usize, usize, usize, Vec<usize>) {
+        let foreign = t
+            .gray_stack
+            .iter()
+            .filter(|h| is_static(t, **h))
+            .map(|h| unsafe { &**h }.nbytes())
+            .sum();
+        let sizes = t.heap_list.iter().map(|h| unsafe { &**h }.nbytes()).collect();
+        (t.heap_size, t.last_gc_heap_size, t.gc_debt, foreign, sizes)
+    }
 }
